@@ -548,7 +548,11 @@ impl Duration {
         Self::from_total_nanoseconds(if duration.total_nanoseconds() == 0 {
             0
         } else {
-            self.total_nanoseconds() - self.total_nanoseconds() % duration.total_nanoseconds()
+            // Euclidean remainder: the floor is never greater than this duration, including negative ones.
+            self.total_nanoseconds()
+                - self
+                    .total_nanoseconds()
+                    .rem_euclid(duration.total_nanoseconds().abs())
         })
     }
 
